@@ -34,8 +34,8 @@ ASSUMPTIONS = ["iterables without aclose get a neutral context: only the in-bloc
 EXHAUSTIVE_SUBSPACES = 'nested scopes of depth 2..3 left in every order x 3 underlying kinds x 0..2 items taken'
 EXHAUSTIVE = {"quick": False, "thorough": False}
 N_PROG = {"quick": 4000, "thorough": 200000}
-FLAVS = ["async_gen", "async_class", "async_class", "async_class_bare", "sync_iter", "slowclose", "failclose", "async_class_proxy"]
-CLASS_CLOSABLE = ("async_class", "async_class_proxy")
+FLAVS = ["async_gen", "async_class", "async_class", "async_class_bare", "sync_iter", "slowclose", "failclose", "async_class_proxy", "async_iterable", "sync_iterable"]
+CLASS_CLOSABLE = ("async_class", "async_class_proxy", "async_iterable")
 
 
 class CloseError(Exception):
